@@ -6,7 +6,7 @@ package main
 //	number   := sign? (decimal | hexfloat)
 //	decimal  := (digit+ ('.' digit*)? | '.' digit+) (('e'|'E') sign? digit+)?
 //	hexfloat := '0' ('x'|'X') (hex+ ('.' hex*)? | '.' hex+) ('p'|'P') sign? digit+
-//	            ('_' may follow the prefix or separate hex digits)
+//	            ('_' may separate digits, and follow the 0x prefix, as in Go literals: 1_000.5, 0x_1p-1)
 //
 // Anything else (empty, whitespace, NaN, Inf, units, two dots ...) denotes nothing.
 // The value is mant * 10^e10 * 2^e2 with arbitrary precision; exponents beyond +-20000 are kept
@@ -109,6 +109,14 @@ func denote(s string) den {
 				i++
 				continue
 			}
+			if c == '_' {
+				// digit separator: between two digits only
+				if i == 0 || !isDigit(s[i-1]) || i+1 >= n || !isDigit(s[i+1]) {
+					return bottom
+				}
+				i++
+				continue
+			}
 			if !isDigit(c) {
 				break
 			}
@@ -136,7 +144,11 @@ func denote(s string) den {
 				i++
 			}
 			ed := 0
-			for i < n && isDigit(s[i]) {
+			for i < n && (isDigit(s[i]) || (s[i] == '_' && ed > 0 && i+1 < n && isDigit(s[i+1]))) {
+				if s[i] == '_' {
+					i++
+					continue
+				}
 				if exp.BitLen() < 64 { // beyond that it is "huge" anyway
 					exp.Mul(exp, big.NewInt(10))
 					exp.Add(exp, big.NewInt(int64(s[i]-'0')))
